@@ -9,7 +9,8 @@ CLAIMS = {
                 "(incl. the four roots of the line-of-sight cubic); mcnorm is R^2 over the product of the matching "
                 "density norms; the weight is cos(thTrN)/cos(thNV)/cos(thTrV); the geometry-only sum is cut only by "
                 "the cone cut, carries no physics factor and is divided by the thrown count; the region predicate is "
-                "(cos>=0 and beta<42). It does NOT decide the Jacobian identity, the image of the cube or convergence "
+                "(cos>=0 and beta<42); the weight, cut and divisor obligations are evaluated again for a repeated call on "
+                "the same thrown geometry (second detection channel). It does NOT decide the Jacobian identity, the image of the cube or convergence "
                 "(values); a re-expression through trigonometric identities would be reported.",
         "technique": "value-flow graph + polynomial normal form / truth-table predicates / dependence sets",
     },
@@ -41,7 +42,8 @@ CLAIMS = {
     "C05": {
         "text": "Decides: interpolation is over log10(table), every stored value is log-domain and the return is "
                 "10**array; the two floors are the same float32-eps constant; the angle masks cover all events and low "
-                "angles use the first beta node; the look-up keeps its bounds check; point order follows the table "
+                "angles use the first beta node; the look-up keeps its bounds check for BOTH coordinates (bounds_error not "
+                "switched off, decided before anything else); point order follows the table "
                 "axes; history independence as an effect property - the only write to instance state in a call is the "
                 "idempotent clamp X[X<=0]=k (k>0) and every other read of the table goes through it. It does NOT "
                 "decide node reproduction or the convexity bound (scipy on values).",
@@ -74,7 +76,8 @@ CLAIMS = {
                 "being the configured detector altitude, while the returned angle is independent of it; the range cut is "
                 "exactly 0 <= altDec <= 20 with defaults 0 and 1.5 deg and one mask for kernel inputs and outputs; the "
                 "effective angle is max(intrinsic, intrinsic x sqrt(2 ln(PE/threshold))) switched at PE/threshold > 2 "
-                "with multiplier 1 below, returned as cos(radians(.)). It does NOT decide monotonicity in the signal.",
+                "with multiplier 1 below (the switch is analysed as a piecewise function over disjoint regions, "
+                "whatever mix of pre-fill, masked stores and where spells it), returned as cos(radians(.)). It does NOT decide monotonicity in the signal.",
         "technique": "value-flow graph through the dask pipeline into the kernel + polynomial degrees, predicates, "
                      "dependence and unit analyses",
     },
@@ -92,17 +95,20 @@ CLAIMS = {
         "text": "Decides sufficient structure for schedule independence: the closure of the per-event kernel (30+ "
                 "functions incl. the cloud closures and the atmosphere conversion) writes no instance state, global, "
                 "captured variable or parameter and draws no random number / clock / file; the C++ stepper has no "
-                "static state; the batch call is exactly from_sequence(zip(args)) -> map(kernel) -> compute() -> "
-                "zip(*...) with argument and result order matched by role and no other combinator; no handler can "
+                "static state; EVERY kernel invocation reachable from the batch call receives the elements of the batch "
+                "arguments by role and the cloud callable, and on EVERY returning path each result is the in-order "
+                "collection of the kernel's return value (dask from_sequence(zip) -> map -> compute, or a sequential "
+                "map/starmap/comprehension) or the guarded empty result, with no other bag combinator; no handler can "
                 "swallow a task failure. dask's own order/exception semantics and IEEE determinism are trusted, not "
                 "decided.",
-        "technique": "effect / alias analysis over the inlined call graph of the kernel, pipeline-shape matching, "
-                     "token scan of the C++ translation unit",
+        "technique": "effect / alias analysis over the inlined call graph of the kernel, path-complete pipeline "
+                     "analysis on the value graph, token scan of the C++ translation unit",
     },
     "C11": {
         "text": "Decides for 15 stage entry points: no argument array is modified on any path (aliasing through "
                 "views, augmented assignment, out=, mutating methods); a second call on the same objects does not "
-                "depend on anything the first call created (except the idempotent table clamp); per-event outputs keep "
+                "depend on anything the first call created (except the idempotent table clamp); no module-level object and "
+                "no result handed out by a memoising decorator (lru_cache & co.) is modified in place; per-event outputs keep "
                 "the input event population with no position-dependent index, no batch-wide reduction feeding a "
                 "column and no mixing of populations (two allow-listed constructs with stated reasons); samplers return "
                 "the iterator's allocated operand. Bit-for-bit equality relies on numpy's elementwise determinism "
@@ -145,11 +151,13 @@ CLAIMS = {
     "C17": {
         "text": "Decides ownership / pairing / ordering: the results table is mutated only in the staged writer's "
                 "methods; each writer invocation mutates then rewrites the whole file exactly once (same table, "
-                "output_file, format fits, overwrite=True) under write_stages; every file-output effect below "
-                "compute() is that guarded write (nothing else writes, removes or renames); the storing wrapper calls "
-                "the stage once, stores all its values after it returned and returns them unchanged; no handler "
-                "swallows a stage failure. It does NOT decide atomicity of a single Table.write.",
-        "technique": "effect ordering and control dependence on the inlined graph of compute(); AST shape of the wrapper",
+                "output_file, format fits, overwrite=True) under write_stages (however the guard is spelled); every "
+                "file-output effect below compute() is that guarded write (nothing else writes, removes or renames); in "
+                "every storing-wrapper invocation the stage runs once and has returned before its values are stored, "
+                "all values are stored and returned unchanged; the table owns its columns (a column added with "
+                "copy=False is never modified afterwards); no handler swallows a stage failure. It does NOT decide "
+                "atomicity of a single Table.write.",
+        "technique": "effect ordering, ownership and control dependence on the inlined graph of compute()",
     },
     "C15": {
         "text": "Decides: for each of the 15 dimensional fields a mode='before' parse_units validator and a "
@@ -160,12 +168,14 @@ CLAIMS = {
                 "parser and both CLI options, the 1..12 range test and the inverted-band test; unfiltered "
                 "model_dump()/NssConfig(**loaded) symmetry and distinct literal ids of the unions. It does NOT decide "
                 "float round trip, TOML escaping or astropy's conversion values.",
-        "technique": "schema reading of the pydantic classes (AST) + sibling cross-check + unit inference on the "
-                     "value-flow graph + truth-table predicates on validator raise conditions",
+        "technique": "schema reading of the pydantic classes + value graphs of every validator / serializer / TOML "
+                     "function + sibling cross-check + unit inference + truth-table predicates on raise conditions",
     },
     "C16": {
         "text": "Decides writer/reader agreement of the header schema: the header is the whole flattened model_dump() "
-                "under 'HIERARCH Config' with separator ' ' (flattener shape checked); every key config_from_fits reads "
+                "under 'HIERARCH Config' with separator ' '; the flattener is decided from the effects of its generator "
+                "body (every non-mapping item emitted under parent+sep+key, every mapping recursed with the same "
+                "separator, nothing skipped); a missing key is detected by a presence test, not by truthiness; every key config_from_fits reads "
                 "exists in the writer's key set for every union variant that can reach the read (guards on the "
                 "variant id are interpreted against the schema's literal ids); every value is read from the key that "
                 "is its own path (31 leaves); each spectrum variant is rebuilt completely; the final CLI write and the "
@@ -175,37 +185,45 @@ CLAIMS = {
                      "value-flow graph of config_from_fits, set comparison per union variant",
     },
     "C18": {
-        "text": "Decides writer/reader agreement per format (data set / group / attribute names, the AXIS{i} pattern "
-                "and its numbering from 0 in constructor and both readers, FITS HDU order vs index i+1, registry "
-                "completeness), that writers hand the grid's own arrays to the file layer and readers pass what they "
+        "text": "Decides writer/reader agreement per registered format on the value graphs of the functions: data "
+                "set / group / attribute names, axis k stored and read under axis name k, the numbered axis-name key "
+                "(prefix and position k) in constructor and both readers, FITS HDU order (sequence normal form of the "
+                "HDU list) vs the reader's index as an affine function of the position, counts tied to the data's "
+                "dimensionality, create (not require) semantics, registry completeness and same file layer; that "
+                "writers hand the grid's own arrays to the file layer and readers pass what they "
                 "read to the constructor unchanged, and slice consistency of grid_slice_interp; plus an exhaustive "
                 "DATA AUDIT over all ~550 000 nodes of all shipped tables (strictly increasing axes, CDF rows "
                 "non-decreasing from 0 to 1 within 1e-15, exit probabilities <= 1, smallest reachable tau energy above "
                 "the tau mass, axis names/order). It does NOT decide round-trip equality for arbitrary grids, slicing "
                 "values or agreement of vec_1d_interp with np.interp.",
-        "technique": "AST key / pattern agreement between sibling reader and writer functions + value-flow identity of "
-                     "stored arrays; data audit of shipped files (labelled, no repo code executed)",
+        "technique": "value-flow graphs of the sibling reader / writer functions (sequence normal form, affine index "
+                     "positions, key agreement) + identity of stored arrays; data audit of shipped files (labelled, "
+                     "no repo code executed)",
     },
     "C19": {
-        "text": "Decides: the two shipped copies of both conversions have identical operation graphs over the same "
-                "constants.py objects (what bit-for-bit agreement means statically); one layer-index term for all layer "
+        "text": "Decides: the two shipped copies of both conversions are the same function over the same constants.py "
+                "objects - identical operation graphs (what bit-for-bit agreement means statically) or, when one copy "
+                "is spelled differently, algebraically equal in every cell of the mask partition (then rounding-level "
+                "agreement is reported as not decided); one layer-index term for all layer "
                 "tables, isothermal branch by lapse rate == 0, inclusive layer selection (boundary in the upper layer) "
-                "in both directions over all layers in order, complementary mask storing inf; literal-table sanity "
+                "in both directions over all layers in order (the index array read as a decision list), zero pressure <-> "
+                "infinite altitude with nothing left undefined in any cell; literal-table sanity "
                 "(equal lengths, monotone heights/pressures, sentinel) and equality with the 1976 US Standard "
                 "Atmosphere reference values. It does NOT decide the 1e-6 round trip or behaviour next to boundaries.",
-        "technique": "structural value numbering of the inlined, loop-unrolled value graphs of the sibling "
-                     "implementations; literal-table checks against reference constants",
+        "technique": "structural value numbering and cell-wise polynomial comparison of the inlined, loop-unrolled "
+                     "value graphs of the sibling implementations; literal-table checks against reference constants",
     },
     "C20": {
-        "text": "Decides: SNR has degree 1 in the field and 1/2 in the antenna count; every in-place update multiplies the "
-                "field by a field-free factor, exactly one is showerEnergy/10 and exactly one |D(525 km)/D(h_det)| with "
-                "the same distance function; the field is computed exactly for 0 <= altDec <= 10 and is an exact-zero "
+        "text": "Decides: SNR has degree 1 in the field and 1/2 in the antenna count; on every configuration path the "
+                "final field of a selected event is (table field) x showerEnergy x |D(525 km)/D(h_det)| x factors "
+                "containing none of the three (one power of each, constants not pinned), both distances from the same "
+                "function; no memoised / module-level object is modified in place; the field is computed exactly for 0 <= altDec <= 10 and is an exact-zero "
                 "product with the mask outside, all updates under that one mask; the 10 MHz bin constant agrees between "
                 "SNR and noise helpers, centres are arange+df/2, inclusive band edges on the table's centre column, "
                 "with a DATA AUDIT of the waveform table (one shared 5,15,... grid); order independence of the radio "
                 "stage and the SNR. It does NOT decide finiteness or values.",
-        "technique": "polynomial degrees / ratios on the value-flow graph, truth-table predicates, length-class "
-                     "(equivariance) typing, AST sibling agreement; data audit",
+        "technique": "polynomial degrees / ratios of final values on the value-flow graph (store-to-load forwarding, "
+                     "path assumptions), truth-table predicates, length-class (equivariance) typing; data audit",
     },
 }
 
